@@ -7,7 +7,7 @@ CLAIM = ("Decided per explored history: a Logger is built for each write mode (D
          "must hold every record whose log call had returned (oracle on the implementation); cloning handles and dropping clones in "
          "between must change nothing. The model (file-writer state machine, incl. the buffer, shutdown and the asynchronous message "
          "channel) predicts the same directories (correspondence). Proved in Coq: after OFlush / OShutdown / OStop the model's writer "
-         "has nothing pending and the directory holds everything written (Numbers naming: C04_flush_durable, C04_stop_durable from the "
+         "has nothing pending and the directory holds everything written (Numbers naming: C04_stop_durable, from the "
          "C01 invariant). Partial: real flusher-thread timing and WriteMode::SupportCapture are only sampled.")
 THEOREMS = ["C04_stop_durable"]
 TRUSTED = ["modelled, not verified: BufWriter::flush, the async writer thread joins on shutdown, stdout/stderr buffering of the std writers"]
